@@ -41,7 +41,8 @@ def plan(prop, tier):
         jobs = [gram("C01", "q", "c", "q", 4 if q else 6, []),
                 gram("C01", "cur", "c", "cur", 5 if q else 7, [], shards=4),
                 gram("C01", "q-asan", "c-asan", "mini", 4, ["--fresh"]),
-                gram("C01", "ch4s", "c", "ch4s", 3, CHFL)]
+                gram("C01", "ch4s", "c", "ch4s", 3, CHFL),
+                Job("repetitive", "c", ["gram", "--family", "rep", "--props", "C01", "--r", "3" if q else "4", "--len", "0"], NPROC)]
         if not q:
             jobs += [gram("C01", "qe", "c", "qe", 5, []), gram("C01", "t1", "c", "t1", 5, []),
                      gram("C01", "t2", "c", "t2", 5, ["--one", "0,1", "--cost", "0"]),
@@ -113,11 +114,13 @@ def plan(prop, tier):
                 gram(prop, "minie-asan", "c-asan", "minie", 4, fl + ["--fresh"])]
         if prop != "C08":
             jobs.append(gram(prop, "q", "c", "q", 4, ["--la", "0,1,2", "--one", "1", "--cost", "0", "--match", "1,3", "--rec", "0,1" if prop == "C06" else "1"]))
+        if prop == "C06":   # first error position on inputs that repeat fragments (the goto cache is idle on inputs of length <= 6)
+            jobs.append(Job("repetitive", "c", ["gram", "--family", "rep", "--props", "C06", "--r", "3" if q else "4", "--len", "0"], NPROC))
         if not q:
             jobs += [gram(prop, "q3e", "c", "q3e", 5, fl), gram(prop, "qe-vary", "c", "qe", 4, ["--tm", "vary", "--la", "1", "--one", "0,1", "--cost", "0", "--match", "1,3", "--rec", "1"])]
         nt = {"C06": "c06_cases", "C07": "c07_recovered_cases", "C08": "c08_nonzero_bound"}[prop]
         P = dict(base, jobs=jobs, nontrivial_key=nt,
-                 rule="grammars of the families with 0-3 `error' occurrences x all token strings up to length n x lookahead 0..2 x one/all parses x recovery_match 1..5 (x recovery on/off for C06); oracles from the reference model: first non-viable prefix of G'' (error as terminal, implicit rule), argument relations; tree in the translations of some repair (segments replaced by error, up to n+1 segments) whose deleted length equals the reported total, unique-segment rule; bound = cheapest simple recovery (back p, skip to q, match m) measured from the reported error token",
+                 rule="grammars of the families with 0-3 `error' occurrences x all token strings up to length n x lookahead 0..2 x one/all parses x recovery_match 1..5 (x recovery on/off for C06); oracles from the reference model: first non-viable prefix of G'' (error as terminal, implicit rule), argument relations; C06 also on generated repetitive inputs (concatenations of <= r fragments of 6 curated grammars with one offending fragment at every position, <= 30 tokens); tree in the translations of some repair (segments replaced by error, up to n+1 segments) whose deleted length equals the reported total, unique-segment rule; bound = cheapest simple recovery (back p, skip to q, match m) measured from the reported error token",
                  bounds={"max_input_length": 4, "recovery_match": [1, 2, 3, 4, 5]}, require={"parses": 100000, nt: 1000})
     elif prop in ("C11", "C12"):
         pa = ["--prop", prop]
